@@ -89,6 +89,19 @@ def dict_record(rng, w, form, items, vw, norders=3, with_hash=False):
                 break
             hashes.append(list(c.hash))
             cell = cell or c
+        if form == 'int' and len(items) >= 2 and cell is not None:
+            # the same map grown in two steps on ONE object: serialise, add the last entry through the public set_int_key,
+            # serialise again (also after overwriting an entry with a wrong value and putting the right one back)
+            hm = HashMap(w).with_uint_values(vw)
+            for raw, _, v in items[:-1]:
+                hm.set(raw, v)
+            hm.serialize()
+            hm.set_int_key(items[-1][0], items[-1][2])
+            hashes.append(list(hm.serialize().hash))
+            hm.set_int_key(items[0][0], (items[0][2] + 1) % (1 << vw))
+            hm.serialize()
+            hm.set_int_key(items[0][0], items[0][2])
+            hashes.append(list(hm.serialize().hash))
         rec['hashes'] = hashes
         if cell is None:
             rec['out'] = {'none': 1}
